@@ -116,6 +116,31 @@ their reading:
   declared in `sym_locals` (python local -> lean name), which makes it a fresh input standing for what the skipped code
   computed.  Early `return`s inside a skipped range are not part of the translated path.
 
+  Extensions (tau tables: `Taus.tau_exit_prob`, `Taus.tau_energy`, `grid_cdf_sampler.sample`), all opt-in:
+  * `FnSpec.sym_lists` (source text of an expression -> lean name): the expression (`self.pexit_grid['beta_rad']`, a table
+    axis) is an input of type `List α` of unknown length; `axis[k]` is `List.getD axis k 0` and `axis[-k]` is
+    `List.getD axis (axis.length - k) 0` for a concrete integer k (numpy raises on an axis with fewer than k entries; the
+    `getD` default is what the hand-written models use as well, the bridging theorems are stated under the tables' size facts).
+  * `FnSpec.export_args` (opaque callee text -> base name | None): the symbolic leaves of the positional arguments of every call
+    of that opaque callee are exported, in order, as the outputs `<base>Arg0, <base>Arg1 …` (base None: the name of the input
+    that stands for the call's result), so that a bridging theorem can say AT WHICH POINT the table was queried; an argument
+    read under a Boolean mask is exported as its value on a kept element, and the result of the call then lives on the same
+    kept elements (storing it under another mask is refused).  Concrete arguments are not exported.  An opaque callee may be
+    declared with NO result name (`()`): a constructor whose object is only called (`RegularGridInterpolator(axes, values)`).
+  * a method that returns a value AND stores on its object exports the attributes listed in `outputs` next to the returned
+    value (`ret` / `ret0 …`): the result is then a structure.  An attribute declared in `sym_attrs` that is stored under a mask
+    computed from itself (`self.grid.data[self.grid.data <= 0] = eps`) is the per-ENTRY view of that table: the definition then
+    describes one event and, independently, one table entry.
+  * `x.shape` of a symbolic array is the common shape of the event arrays (the standing element-wise assumption): two such
+    shapes are equal, and `0 in x.shape` is False (the definition describes an element, so the batch is not empty).
+  * `x[...] = v` is the element-wise assignment `x := v`.
+  * `np.nditer([a, b, None], flags=[… "external_loop" …], …)` with `with it:` / `for ai, bi, zi in it:` / `it.operands[k]`: the
+    buffered chunk iterator.  Every element belongs to exactly one chunk and every chunk runs the same body, so the body is
+    read ONCE with each chunk variable standing for its operand (element-wise view); a `None` operand is an allocated output
+    (unspecified until `zi[...] = v`) or, when the body assigns the variable before reading it, a virtual operand; a body that
+    assigns a name which already existed before the loop (state carried from chunk to chunk) is refused.  That chunking does
+    not change an element-wise result is a theorem of the model (`C11.chunked_eq_whole`), not of the translator.
+
 What is NOT translated (raises `Unsupported`, i.e. the regeneration fails and the tie is reported broken): loops over
 symbolic data, reductions over an axis of unknown length, fancy indexing, try/with, raise on a symbolic path, calls into third-party code with symbolic
 arguments that are not in the table below and not declared opaque.
@@ -236,13 +261,29 @@ class SymI:
 
 
 class SymL:
-    """a symbolic list of Lean type `List α` with a concrete length `n` (an idealised `np.linspace` grid)"""
+    """a symbolic list of Lean type `List α` with a concrete length `n` (an idealised `np.linspace` grid), or of unknown
+    length (`n` None: a table axis declared in `FnSpec.sym_lists`)"""
 
-    def __init__(self, lean: str, n: int):
-        self.lean, self.n = lean, int(n)
+    def __init__(self, lean: str, n):
+        self.lean, self.n = lean, (None if n is None else int(n))
 
     def __repr__(self):
         return f"SymL({self.lean}; n={self.n})"
+
+
+class Shape:
+    """`x.shape` of a symbolic array: the common shape of the event arrays (`masks`: of the array compressed by these masks)"""
+
+    def __init__(self, masks=()):
+        self.masks = tuple(masks)
+
+
+class NdIter:
+    """`np.nditer([...], flags=[… 'external_loop' …])`: the buffered chunk iterator over event arrays; `operands[k]` is the
+    element-wise value of operand k (an allocated output gets its value from the loop body)"""
+
+    def __init__(self, operands):
+        self.operands = list(operands)
 
 
 def is_int(v) -> bool:
@@ -409,6 +450,9 @@ class FnSpec:
     skip        : (first, last) local names delimiting a range of top-level statements that is left out
     sym_locals  : python local -> lean name: inputs standing for locals computed by code that is not translated
                   (before a fragment, or inside a skipped range)
+    sym_lists   : source text of an expression (`self.pexit_grid['beta_rad']`) -> lean name of an input of type `List α`
+                  (a table axis of unknown length); see the module docstring
+    export_args : opaque callee text -> base name | None: export the symbolic arguments of its calls as `<base>Arg<k>`
     """
     module: str
     qualname: str
@@ -441,8 +485,12 @@ class FnSpec:
     fragment: tuple | None = None
     skip: tuple | None = None
     sym_locals: dict = field(default_factory=dict)
+    sym_lists: dict = field(default_factory=dict)
+    export_args: dict = field(default_factory=dict)
 
     def __post_init__(self):
+        # the keys of `sym_lists` are compared with `ast.unparse` of the source expression
+        self.sym_lists = {ast.unparse(ast.parse(k, mode="eval").body): v for k, v in self.sym_lists.items()}
         if isinstance(self.inline, str):
             self.inline = (self.inline,)
         if not isinstance(self.inline, dict):
@@ -489,6 +537,8 @@ class Result:
         if isinstance(self.ret, dict):
             sn = s.name[0].upper() + s.name[1:] + "Out"
             what = (f"the per-element terms under the split reductions of `{s.qualname}` and its returned values" if s.reductions
+                    else f"the arguments of the opaque calls of `{s.qualname}` (`…Arg<k>`), what it stores on its object and what it returns (`ret`)"
+                    if getattr(self, "has_exports", False)
                     else f"the locals exported from the translated fragment of `{s.qualname}`" if s.fragment is not None
                     else f"everything `{s.qualname}` stores on the object")
             out.append(f"/-- {what} -/\nstructure {sn} (α : Type) where")
@@ -516,9 +566,10 @@ class Result:
     def binders(self) -> str:
         """`(a b : α) (m : Bool) (c : α) ` — consecutive inputs of one type share a binder group"""
         bools = getattr(self, "bools", None) or set(self.spec.bool_inputs)
+        lists = getattr(self, "lists", None) or set()
         groups: list[tuple[str, list[str]]] = []
         for p in self.params:
-            t = "Bool" if p in bools else "α"
+            t = "Bool" if p in bools else "List α" if p in lists else "α"
             if groups and groups[-1][0] == t:
                 groups[-1][1].append(p)
             else:
@@ -527,7 +578,10 @@ class Result:
 
     def driver_op(self, ns: str, opname: str) -> str:
         bools = getattr(self, "bools", None) or set(self.spec.bool_inputs)
-        args = " ".join((f'(a.getD {i} "0" == "1")' if p in bools else f"(arg a {i})") for i, p in enumerate(self.params))
+        lists = getattr(self, "lists", None) or set()
+        # a list input travels as ONE token: the bit patterns of its elements joined by commas (`-` = the empty list)
+        lst = '(((a.getD {i} "").splitOn ",").filter (fun s => s.length == 16) |>.map f)'
+        args = " ".join((f'(a.getD {i} "0" == "1")' if p in bools else lst.format(i=i) if p in lists else f"(arg a {i})") for i, p in enumerate(self.params))
         toks = ", ".join((f"h ({acc})" if kind == "α" else (f"toString ({acc})" if kind == "Nat" else f"b ({acc})")) for acc, kind, _ in self.fields())
         return (f'  ("{opname}", fun a =>\n    let r := {ns}.{self.spec.name} (α := Float) {args}\n'
                 f'    " ".intercalate [{toks}])')
@@ -610,6 +664,8 @@ class Translator:
 
         self.bool_names: set = set()     # inputs of type Bool / 0-d inputs, over this spec and every sub-spec (input names are
         self.scalar_names: set = set()   # global to the generated definition)
+        self.list_names: set = set()     # inputs of type `List α` (FnSpec.sym_lists)
+        self.exported: dict = {}         # `<base>Arg<k>` -> exported argument of an opaque call (FnSpec.export_args)
 
         def reg_spec(sp, seen):
             if id(sp) in seen:
@@ -621,6 +677,10 @@ class Translator:
                 for n in (v if isinstance(v, (tuple, list)) else (v,)):
                     if n not in self.params:
                         reg(n)
+            for v in sp.sym_lists.values():
+                self.list_names.add(v)
+                if v not in self.params:
+                    reg(v)
             for v in sp.opaque.values():
                 for n in (v if isinstance(v, (tuple, list)) else tuple(v.values()) if isinstance(v, dict) else (v,)):
                     if n not in self.params:
@@ -678,6 +738,8 @@ class Translator:
         """the symbol of a declared input"""
         if n in self.bool_names:
             return SymB(n)
+        if n in self.list_names:
+            return SymL(n, None)
         return Sym(n, scalar=n in self.scalar_names or n in self.red_name.values())
 
     def sc(self, *vals) -> bool:
@@ -686,7 +748,7 @@ class Translator:
             if isinstance(v, Sym):
                 if not v.scalar:
                     return False
-            elif isinstance(v, (Masked, SymB, SymI, SymL, Partial, Poison, tuple, list, dict, OpaqueObj)):
+            elif isinstance(v, (Masked, SymB, SymI, SymL, Partial, Poison, tuple, list, dict, OpaqueObj, Shape, NdIter)):
                 return False
             elif isinstance(v, np.ndarray) and v.ndim > 0:
                 return False
@@ -725,8 +787,10 @@ class Translator:
 
     @staticmethod
     def symbolic(v) -> bool:
-        if isinstance(v, (Sym, SymB, SymI, SymL, Masked, Poison, OpaqueObj, _Unknown, Partial)):
+        if isinstance(v, (Sym, SymB, SymI, SymL, Masked, Poison, OpaqueObj, _Unknown, Partial, Shape)):
             return True
+        if isinstance(v, NdIter):
+            return any(Translator.symbolic(x) for x in v.operands)
         if isinstance(v, (tuple, list)):
             return any(Translator.symbolic(x) for x in v)
         if isinstance(v, dict):
@@ -760,6 +824,8 @@ class Translator:
             return f"(Scalar.ofNat {v.lean} : α)"   # an integer array in float arithmetic is converted exactly
         if isinstance(v, SymL):
             raise Unsupported("an idealised grid (a list) used as a number")
+        if isinstance(v, (Shape, NdIter)):
+            raise Unsupported("the shape of / an iterator over the event arrays used as a number")
         if isinstance(v, (tuple, list)):
             raise Unsupported("a sequence used as a number")
         if isinstance(v, Partial):
@@ -841,6 +907,8 @@ class Translator:
                     return False
                 if sub.attr == "pi" and isinstance(sub.value, ast.Name) and self.globals.get(sub.value.id) in (np, math):
                     return False
+            elif isinstance(sub, ast.Subscript) and self.spec.sym_lists and ast.unparse(sub) in self.spec.sym_lists:
+                return False
             elif isinstance(sub, ast.Call):
                 p = dotted(sub.func)
                 if p is not None and (p in self.spec.opaque or p in self.spec.inline or p in self.spec.reductions):
@@ -929,7 +997,13 @@ class Translator:
         if isinstance(base, (Sym, Masked, Vec)) and node.attr in ("value", "real", "T"):
             return base
         if isinstance(base, SymL) and node.attr == "size":
+            if base.n is None:
+                raise Unsupported(f"`{ast.unparse(node)}`: the length of a table axis (sym_lists) is not known")
             return base.n
+        if isinstance(base, (Sym, Masked)) and node.attr == "shape" and not self.sc(base):
+            return Shape(base.masks() if isinstance(base, Masked) else ())
+        if isinstance(base, NdIter) and node.attr == "operands":
+            return tuple(base.operands)
         if isinstance(base, OpaqueObj):
             key = base.prefix + node.attr
             if key in base.paths:
@@ -1029,6 +1103,13 @@ class Translator:
             if py is None:
                 raise Unsupported(f"comparison {type(op).__name__}")
             return py(a, b)
+        if isinstance(a, Shape) or isinstance(b, Shape):
+            # every symbolic array of one function has the same shape (element-wise assumption), and it has elements
+            if isinstance(a, Shape) and isinstance(b, Shape) and a.masks == b.masks and isinstance(op, (ast.Eq, ast.NotEq)):
+                return isinstance(op, ast.Eq)
+            if isinstance(b, Shape) and is_int(a) and int(a) == 0 and isinstance(op, (ast.In, ast.NotIn)):
+                return isinstance(op, ast.NotIn)
+            raise Unsupported("a comparison depends on the (unknown) shape of the event arrays")
         if isinstance(a, _Unknown) or isinstance(b, _Unknown):
             raise Unsupported("a comparison depends on the (unknown) number of events")
         A, Bv = self.S(a), self.S(b)
@@ -1104,7 +1185,18 @@ class Translator:
         return self.ite(t, self.ev(node.body, st), self.ev(node.orelse, st), scalar=True)
 
     def ev_Subscript(self, node, st):
+        if self.spec.sym_lists:
+            ln = self.spec.sym_lists.get(ast.unparse(node))
+            if ln is not None:
+                return self.inp(ln)   # a table axis: an input of type `List α`
         base = self.ev(node.value, st)
+        if isinstance(base, SymL) and base.n is None:
+            idx = self.ev(node.slice, st)
+            if not is_int(idx):
+                raise Unsupported(f"`{ast.unparse(node)}`: a table axis is read at concrete integer positions only")
+            k = int(idx)
+            pos = str(k) if k >= 0 else f"(List.length {base.lean} - {-k})"
+            return Sym(f"(List.getD {base.lean} {pos} (Scalar.ofNat 0))", scalar=True)   # a numpy float64 scalar
         if isinstance(base, (Sym, Masked)) and self.is_broadcast_view(node.slice):
             return base
         idx = self.ev(node.slice, st)
@@ -1159,6 +1251,7 @@ class Translator:
         p = dotted(node.func)
         if p is not None and p in self.spec.opaque:
             v = self.spec.opaque[p]
+            site = None
             if isinstance(v, list):
                 # one fresh input per call site (the same site reached again — both arms of a symbolic `if` — is the same input)
                 key = (self.path, node.lineno, node.col_offset)
@@ -1168,10 +1261,15 @@ class Translator:
                         raise Unsupported(f"`{p}` is called at more sites than the {len(v)} names declared for it")
                     self.site_count[id(v)] = k + 1
                     self.sites[key] = v[k]
-                return self.inp(self.sites[key])
-            if isinstance(v, dict):
-                return OpaqueObj(v)
-            return tuple(self.inp(n) for n in v) if isinstance(v, tuple) else self.inp(v)
+                site = self.sites[key]
+                res = self.inp(site)
+            elif isinstance(v, dict):
+                res = OpaqueObj(v)
+            else:
+                res = tuple(self.inp(n) for n in v) if isinstance(v, tuple) else self.inp(v)
+            if p in self.spec.export_args:
+                res = self.export_call_args(node, p, site if site is not None else (v if isinstance(v, str) else None), res, st)
+            return res
         if p is not None and p in self.spec.reductions:
             return self.reduction(node, st)
         meth = self.method_of_class(node.func)
@@ -1198,6 +1296,14 @@ class Translator:
         tgt = self.inline_target(node, p, f)
         if tgt is not None:
             return self.inline_call(node, p, tgt, args, kw)
+        if f is np.nditer:
+            ops = args[0] if args else kw.get("op")
+            flags = kw.get("flags", args[1] if len(args) > 1 else ())
+            if not isinstance(ops, (tuple, list)) or self.symbolic(flags) or "external_loop" not in tuple(flags):
+                raise Unsupported(f"`{ast.unparse(node)[:60]}`: only the external-loop chunk iterator over a list of operands is read")
+            if any(isinstance(o, (tuple, list, Vec, Masked, SymL)) or not (o is None or self.symbolic(o)) for o in ops):
+                raise Unsupported(f"`{ast.unparse(node)[:60]}`: every operand must be an event array or None")
+            return NdIter(ops)
         if f is np.linspace and self.spec.ideal_linspace:
             if len(args) != 3 or kw or self.symbolic(args[2]) or not is_int(args[2]):
                 raise Unsupported(f"`{ast.unparse(node)}`: only linspace(lo, hi, n) with a concrete n is translated")
@@ -1205,11 +1311,11 @@ class Translator:
             return SymL(f"(Np.linspace {self.S(args[0])} {self.S(args[1])} {int(args[2])})", int(args[2]))
         if f is np.searchsorted:
             side = kw.get("side", args[2] if len(args) > 2 else "left")
-            if len(args) < 2 or not isinstance(args[0], SymL) or side != "left" or set(kw) - {"side"}:
+            if len(args) < 2 or not isinstance(args[0], SymL) or args[0].n is None or side != "left" or set(kw) - {"side"}:
                 raise Unsupported(f"`{ast.unparse(node)}`: only searchsorted(<idealised grid>, x) with side='left' is translated")
             self.needs.add("Numpy")
             return SymI(f"(Np.searchsortedLeft {args[0].lean} {self.S(args[1])})", range(args[0].n + 1))
-        if f is builtins.len and len(args) == 1 and isinstance(args[0], SymL):
+        if f is builtins.len and len(args) == 1 and isinstance(args[0], SymL) and args[0].n is not None:
             return args[0].n
         if f in (np.minimum, builtins.min) and len(args) == 2 and any(isinstance(a, SymI) for a in args) and all(isinstance(a, SymI) or is_int(a) for a in args):
             va, vb = [(a.vals if isinstance(a, SymI) else {int(a)}) for a in args]
@@ -1322,6 +1428,40 @@ class Translator:
                 return args[1] if len(args) > 1 else kw["fill_value"]
             return Partial()   # unspecified contents, defined by later Boolean-mask stores
         raise Unsupported(f"call `{ast.unparse(node)}`: {getattr(f, '__name__', f)} with symbolic arguments is not in the translation table")
+
+    def export_call_args(self, node, p, site, res, st):
+        """FnSpec.export_args: the symbolic leaves of the positional arguments of an opaque call become outputs `<base>Arg<k>`;
+        the result of the call lives on the kept elements of its (masked) arguments"""
+        base = self.spec.export_args[p] or site
+        if not base:
+            raise Unsupported(f"export_args[`{p}`]: no base name (the callee has no single result input)")
+        if node.keywords or any(isinstance(a, ast.Starred) for a in node.args):
+            raise Unsupported(f"`{ast.unparse(node)[:60]}`: keyword / starred arguments of a call whose arguments are exported")
+        leaves: list = []
+
+        def flat(x):
+            if isinstance(x, (tuple, list)) and not isinstance(x, Vec):
+                for y in x:
+                    flat(y)
+            elif isinstance(x, (Sym, SymB, SymI, Masked)):
+                leaves.append(x)
+            elif self.symbolic(x):
+                raise Unsupported(f"`{ast.unparse(node)[:60]}`: argument of type {type(x).__name__} cannot be exported")
+        for a in node.args:
+            flat(self.ev(a, st))
+        self.same_mask(*leaves)
+        for k, x in enumerate(leaves):
+            val = x.val if isinstance(x, Masked) else x    # under a mask: the value on a kept element
+            name = f"{base}Arg{k}"
+            text = val.lean
+            old = self.exported.get(name)
+            if old is not None and old.lean != text:
+                raise Unsupported(f"`{p}` is called at two sites with different arguments under the one name `{base}` (declare one name per site)")
+            self.exported[name] = val if isinstance(val, (SymB, SymI)) else Sym(text)
+        if len([n for n in self.exported if n.startswith(f"{base}Arg")]) != len(leaves):
+            raise Unsupported(f"`{p}` is called at two sites with a different number of symbolic arguments under the one name `{base}`")
+        m = next((x for x in leaves if isinstance(x, Masked)), None)
+        return m.like(res) if (m is not None and isinstance(res, (Sym, SymB))) else res
 
     def reduction(self, node, st):
         """`np.sum(term)` etc. over a symbolic array: export the term, take the reduced value as a fresh 0-d input"""
@@ -1451,11 +1591,13 @@ class Translator:
             # same tables and reading modes as the caller; the attribute paths of `self` keep their meaning only on the same
             # object, and the tables keyed by local names (opaque_locals, opaque_reads) only inside the function they were written for
             sp = FnSpec(mod.__name__, fdef.name, me.name, sym_attrs=(me.sym_attrs if self_obj is me.self_obj and self_obj is not None else {}),
-                        opaque=me.opaque, inline=me.inline, self_obj=self_obj,
+                        opaque=me.opaque, inline=me.inline, self_obj=self_obj, export_args=me.export_args,
+                        sym_lists=(me.sym_lists if self_obj is me.self_obj and self_obj is not None else {}),
                         inf_name=me.inf_name, exact_consts=me.exact_consts, ideal_linspace=me.ideal_linspace,
                         scalar_pow=me.scalar_pow, clip_ite=me.clip_ite)   # the callee is read with the caller's numeric conventions
         else:
-            sp = FnSpec(mod.__name__, fdef.name, me.name, sym_attrs=sub.sym_attrs, opaque=sub.opaque,
+            sp = FnSpec(mod.__name__, fdef.name, me.name, sym_attrs=sub.sym_attrs, opaque=sub.opaque, sym_lists=sub.sym_lists,
+                        export_args=sub.export_args,
                         opaque_locals=sub.opaque_locals, opaque_reads=sub.opaque_reads, inline=sub.inline, self_obj=self_obj,
                         inf_name=(sub.inf_name if sub.inf_name is not None else me.inf_name), exact_consts=sub.exact_consts,
                         ideal_linspace=sub.ideal_linspace, scalar_pow=sub.scalar_pow, clip_ite=sub.clip_ite)
@@ -1466,6 +1608,7 @@ class Translator:
         ch.repo_src, ch.sites, ch.site_count, ch.local_sites = self.repo_src, self.sites, self.site_count, self.local_sites
         ch.tables, ch.needs, ch.enclosing = self.tables, self.needs, []      # shared with the caller; a callee is never a closure
         ch.bool_names, ch.scalar_names = self.bool_names, self.scalar_names
+        ch.list_names, ch.exported = self.list_names, self.exported
         ch.path = self.path + ((node.lineno, node.col_offset),)
         ch.depth = self.depth + 1
         self.inlined.append((f"{mod.__name__}.{getattr(fdef, 'qualname', fdef.name)}", ast.dump(fdef, include_attributes=False)))
@@ -1551,6 +1694,10 @@ class Translator:
                 raise Unsupported(f"store to `{ast.unparse(target)}`")
             stored[p] = self.bind(target.attr, val) if self.symbolic(val) else val
         elif isinstance(target, ast.Subscript):
+            if self.is_broadcast_view(target.slice) and isinstance(target.value, ast.Name) and not isinstance(val, Partial) \
+                    and (isinstance(env.get(target.value.id), Partial) or self.symbolic(env.get(target.value.id))):
+                self.assign(target.value, val, st)   # `x[...] = v`: every element of x is overwritten
+                return
             idx = self.ev(target.slice, st)
             raw = env.get(target.value.id) if isinstance(target.value, ast.Name) else None
             empty = isinstance(raw, Partial)   # an `np.empty_like` array is not READ by a store into it
@@ -1662,6 +1809,36 @@ class Translator:
                 raise Unsupported(f"`{ast.unparse(s)}` is reached on the translated path")
             elif isinstance(s, ast.Pass):
                 continue
+            elif isinstance(s, ast.With):
+                if len(s.items) != 1:
+                    raise Unsupported(f"statement `With`: {ast.unparse(s)[:80]}")
+                cm = self.ev(s.items[0].context_expr, st)
+                if not isinstance(cm, NdIter):
+                    raise Unsupported(f"`with {ast.unparse(s.items[0].context_expr)[:60]}`: only the chunk iterator (np.nditer) is read as a context")
+                if s.items[0].optional_vars is not None:
+                    self.assign(s.items[0].optional_vars, cm, st)
+                r = self.block(s.body, st)
+                if r is not None:
+                    return r
+            elif isinstance(s, ast.For) and isinstance(s.iter, ast.Name) and isinstance(st[0].get(s.iter.id), NdIter):
+                it = st[0][s.iter.id]
+                tg = list(s.target.elts) if isinstance(s.target, (ast.Tuple, ast.List)) else [s.target]
+                if len(tg) != len(it.operands) or not all(isinstance(t, ast.Name) for t in tg) or s.orelse:
+                    raise Unsupported(f"`for {ast.unparse(s.target)} in {ast.unparse(s.iter)}`: one plain name per operand of the iterator is expected")
+                names = [t.id for t in tg]
+                carried = sorted({n.id for b_ in s.body for n in ast.walk(b_) if isinstance(n, ast.Name) and isinstance(n.ctx, ast.Store)
+                                  and n.id not in names and n.id in st[0]})
+                if carried:
+                    raise Unsupported(f"the chunk loop assigns {carried}, which exist before the loop (state carried from chunk to chunk)")
+                for n, op in zip(names, it.operands):
+                    st[0][n] = Partial() if op is None else op   # an allocated / virtual operand has no contents yet
+                r = self.block(s.body, st)
+                if r is not None:
+                    raise Unsupported("`return` inside the chunk loop")
+                for k, (n, op) in enumerate(zip(names, it.operands)):
+                    if op is None:
+                        v = st[0].get(n)
+                        it.operands[k] = self.materialise(n, v) if (isinstance(v, Partial) and v.stores) else v
             elif isinstance(s, ast.For):
                 it = self.ev(s.iter, st)
                 if self.symbolic(it) and not isinstance(it, (tuple, list)):
@@ -1821,6 +1998,32 @@ class Translator:
                 if missing:
                     raise Unsupported(f"{sp.qualname} has no local(s) {missing} at its end")
                 r = tuple(fin(st[0][n]) for n in sp.also_return) + (r if isinstance(r, tuple) else (r,))
+            if sp.outputs and sp.fragment is None:
+                # the function returns a value AND stores on its object: the listed attributes are exported next to the value
+                ret = {}
+                for k in sp.outputs:
+                    kk = k if k in st[1] else f"self.{k}"
+                    if kk not in st[1]:
+                        raise Unsupported(f"{sp.qualname} no longer stores `{k}`")
+                    v = fin(st[1][kk])
+                    if isinstance(v, tuple):
+                        raise Unsupported(f"{sp.qualname} stores a tuple in `{k}`")
+                    ret[kk.split(".")[-1]] = v
+                if isinstance(r, tuple):
+                    if any(isinstance(x, tuple) for x in r):
+                        raise Unsupported("nested tuple returned next to stored attributes")
+                    ret.update({f"ret{i}": x for i, x in enumerate(r)})
+                else:
+                    ret["ret"] = r
+                r = ret
+        if self.exported:
+            # FnSpec.export_args: the arguments of the opaque calls, in front of everything else
+            out = {n: fin(v) for n, v in self.exported.items()}
+            rest = r if isinstance(r, dict) else ({f"ret{i}": x for i, x in enumerate(r)} if isinstance(r, tuple) else {"ret": r})
+            if any(isinstance(x, tuple) for x in rest.values()) or set(out) & set(rest):
+                raise Unsupported(f"{sp.qualname}: exported arguments clash with the result")
+            out.update(rest)
+            r = out
         if len(self.reduced) != len(self.red_name):
             raise Unsupported(f"{sp.qualname}: a declared reduction is not reached")
         if self.reduced:
@@ -1838,6 +2041,8 @@ class Translator:
         res = Result(sp, self.params, self.lets, r, self.src_sha, self.src_loc)
         res.prelude = "Numpy" in self.needs
         res.bools = set(self.bool_names)
+        res.lists = set(self.list_names)
+        res.has_exports = bool(self.exported) or (isinstance(r, dict) and "ret" in r and not self.reduced)
         res.part = part
         res.inlined = list(dict.fromkeys(n for n, _ in self.inlined))
         if self.inlined:
